@@ -1,6 +1,7 @@
 package props
 
 import (
+	"bytes"
 	"fmt"
 	"io"
 	"os"
@@ -198,6 +199,52 @@ func TestC09(t *testing.T) {
 		})
 		verdict(t, "C09", w, o)
 	})
+}
+
+// TestC09Big: fault enumeration over the sink writes of files whose pages are large (one page per column of 70 KiB .. 300 KiB,
+// required / optional / repeated columns, every codec, one and two row groups): size-dependent write paths of the page writers.
+func TestC09Big(t *testing.T) {
+	if !fx.Has("big") {
+		t.Skip()
+	}
+	nsh, idx := envInt("VERIF_NSHARDS", 1), envInt("VERIF_SHARDIDX", 0)
+	f := fx.Get("big")
+	g := vt.DefaultGen
+	g.LongList, g.MaxList, g.LongStr, g.MaxStr, g.UniformStr, g.NullPct = 0, 2, 0, 120, true, 10
+	k := 0
+	for codec := 0; codec < 3; codec++ {
+		for _, batches := range [][]int{{1500}, {1490, 10}} {
+			k++
+			if k%nsh != idx {
+				continue
+			}
+			w := &Workload{Fixture: "big", PageSize: 10000, Codec: codec, Batches: batches}
+			w.Records = rapid.Custom(func(t *rapid.T) []*vt.Val {
+				var out []*vt.Val
+				for i := 0; i < 1500; i++ {
+					out = append(out, vt.GenRecord(t, f.Root, g))
+				}
+				return out
+			}).Example(2000 + k)
+			for i, r := range w.Records {
+				// the optional string column carries 100..163 bytes per value: its page has > 64 KiB of values in every file
+				if o := r.F[2]; !o.Null {
+					o.S = vt.Bytes(bytes.Repeat([]byte{byte('a' + i%26)}, 100+i%64))
+				}
+			}
+			h := fmt.Sprintf("big/%d/%v", codec, batches)
+			o := checkC09(w, func(k int, mode, class string) {
+				record("C09", fmt.Sprintf("%s/%d/%s", h, k, mode), true, []string{"part=" + class, "mode=" + mode, "codec=" + fx.CodecNames[codec] + "/part=" + class, "big-pages"}, nil)
+			})
+			if o != nil {
+				if isKnown("C09", o.Key) {
+					continue
+				}
+				saveFail("C09", w, o)
+				t.Fatalf("C09 violated: %s", o.Error())
+			}
+		}
+	}
 }
 
 func TestReplayC09(t *testing.T) {
